@@ -114,3 +114,19 @@ claim("C01", "forbidden-callee-in-scope over the whole call database with saniti
       "consumer is order-insensitive; no clock/random/env/thread/fs call (manifest dumper tooling excepted) and no pointer-to-integer cast "
       "(audited wasmi host pointer excepted); diagnostic flags are read only where modules are selected / receipts built; trace modules call "
       "only uncosted readers; NonIterMap has no iteration API. Input-determinism of IndexMap insertion orders and the WASM cache are not decided.")
+
+claim("C34", "check liveness: config-field -> rejecting-branch dependence (MIR data dependence + doomed arm) and rejection-variant liveness",
+      "Decides the liveness clause: every limit of TransactionValidationConfigV1 / MessageValidationConfig is read by a validator function where a "
+      "branch depending on it has a doomed arm; every field of the config structs is classified (a new limit needs a rule); every variant of "
+      "the header/signature/message/intent/transaction/id validation error enums is produced (dead-today variants frozen with reasons). "
+      "Boundary exactness (< vs <=) is not decided.")
+
+claim("C35", "check liveness + doomed-arm + must-pass-through of the four structure-validation steps",
+      "Decides: each structural rejection of validate_intent_relationships is constructed on a conditional path that cannot reach Ok; the "
+      "enumeration, children, work-list and final-scan steps all lie on every path to Ok; the depth test depends on config.max_subintent_depth "
+      "and the reachability test on the depth marked in step 3. That exactly the well-formed trees are accepted is not decided.")
+
+claim("C49", "check liveness (config field -> rejecting branch) + hook wiring under the LIMITS flag (guard dominance)",
+      "Decides: every TransactionLimitsConfig field feeds a branch with a rejecting arm in the system modules; all fields are classified; every "
+      "TransactionLimitsError variant is produced under a branch; each LimitsModule hook is called from the same-named SystemModuleMixer callback "
+      "on the enabled_modules.contains(LIMITS) arm; log/event/panic-message limits reject in the mixer. Boundary exactness is not decided.")
